@@ -1308,6 +1308,13 @@ pub fn gen_plan(seed: u64, backend: Backend, entry: Entry, focus: Focus, thoroug
         let at = r.below(ops.len() as u64 + 1) as usize;
         ops.insert(at, Op::Bulk { c, n: 1001 + r.below(80) as u16 });
         ops.insert(at, Op::Create { c });
+        // seeded counters stay clear of the 32-bit limit by more than this run can add (crossing it takes
+        // four billion versions since one snapshot: not a history this study claims anything about)
+        for op in ops.iter_mut() {
+            if let Op::SeedSnap { since: Some(s), .. } = op {
+                *s = (*s).min(u32::MAX - 5000);
+            }
+        }
     }
     // swarm knob: in some runs clients deliberately quote each other's ids
     if n_clients >= 2 && r.chance(30, 100) {
